@@ -506,6 +506,165 @@ fn map(r: u64, columns: bool) -> Value {
   json!({"op": "map", "r": r, "columns": columns})
 }
 
+/// paths (JSON pointers) of all nodes of a tree
+fn node_paths(t: &Value, at: String, out: &mut Vec<String>) {
+  out.push(at.clone());
+  match t["k"].as_str() {
+    Some("concat") => {
+      for key in ["ch", "adds"] {
+        if let Some(a) = t[key].as_array() {
+          for (i, c) in a.iter().enumerate() {
+            node_paths(c, format!("{at}/{key}/{i}"), out);
+          }
+        }
+      }
+    }
+    Some("replace") | Some("cached") | Some("box") => node_paths(&t["inner"], format!("{at}/inner"), out),
+    _ => {}
+  }
+}
+
+fn bump_bytes(v: &mut Value, g: &mut Gen) {
+  let mut b = crate::build::bytes_of(v);
+  match g.rng.gen_range(0..3) {
+    0 => b.push(b'x'),
+    1 if !b.is_empty() => {
+      b.pop();
+    }
+    _ => b.insert(0, b'y'),
+  }
+  // keep texts valid UTF-8
+  if std::str::from_utf8(&b).is_err() {
+    b = b"zz".to_vec();
+  }
+  *v = bytes_json(&b);
+}
+
+/// one random edit of one random node; returns false if nothing was changed
+fn mutate(tree: &mut Value, g: &mut Gen) -> bool {
+  let mut paths = vec![];
+  node_paths(tree, String::new(), &mut paths);
+  let path = paths[g.rng.gen_range(0..paths.len())].clone();
+  let node = tree.pointer_mut(&path).unwrap();
+  match node["k"].as_str().unwrap_or("") {
+    "raw" => {
+      if g.rng.gen_bool(0.7) {
+        if node["sub"] == "buf" || node["sub"] == "rawbuf" {
+          let mut b = crate::build::bytes_of(&node["b"]);
+          b.push(b'x');
+          node["b"] = bytes_json(&b);
+        } else {
+          bump_bytes(&mut node["b"], g);
+        }
+      } else {
+        let valid = std::str::from_utf8(&crate::build::bytes_of(&node["b"])).is_ok();
+        let subs: &[&str] = if valid { &["str", "buf", "rawstr", "rawbuf"] } else { &["buf", "rawbuf"] };
+        let cur = node["sub"].as_str().unwrap_or("").to_string();
+        let other: Vec<&&str> = subs.iter().filter(|x| **x != cur).collect();
+        if other.is_empty() {
+          return false;
+        }
+        node["sub"] = json!(**other[g.rng.gen_range(0..other.len())]);
+      }
+      true
+    }
+    "orig" => {
+      if g.rng.gen_bool(0.6) {
+        bump_bytes(&mut node["b"], g);
+      } else {
+        bump_bytes(&mut node["name"], g);
+      }
+      true
+    }
+    "sms" | "default" => {
+      let has_inner = node["inner"].as_array().map(|a| !a.is_empty()).unwrap_or(false);
+      let is_default = node["k"] == "default";
+      match g.rng.gen_range(0..10) {
+        0 => bump_bytes(&mut node["b"], g),
+        8 if has_inner => {
+          node["remove"] = json!(!node["remove"].as_bool().unwrap_or(false));
+        }
+        9 if has_inner => {
+          let m = &mut node["inner"][0];
+          bump_bytes(&mut m["sources"][0], g);
+        }
+        k => {
+          let m = if is_default { &mut node["map"][0] } else { &mut node["map"] };
+          if m.is_null() {
+            return false;
+          }
+          match k % 7 {
+            0 => {
+              let mut mm = crate::build::bytes_of(&m["m"]);
+              mm.extend_from_slice(b";AAAA");
+              m["m"] = bytes_json(&mm);
+            }
+            1 => bump_bytes(&mut m["sources"][0], g),
+            2 => {
+              if m["contents"].as_array().map(|a| a.is_empty()).unwrap_or(true) {
+                m["contents"] = json!([bytes_json(b"q")]);
+              } else {
+                bump_bytes(&mut m["contents"][0], g);
+              }
+            }
+            3 => m["names"].as_array_mut().unwrap().push(bytes_json(b"extra")),
+            4 => m["root"] = if m["root"].as_array().map(|a| a.is_empty()).unwrap_or(true) { json!([bytes_json(b"rt")]) } else { json!([]) },
+            5 => m["file"] = if m["file"].as_array().map(|a| a.is_empty()).unwrap_or(true) { json!([bytes_json(b"f.js")]) } else { json!([]) },
+            _ => m["dbg"] = if m["dbg"].as_array().map(|a| a.is_empty()).unwrap_or(true) { json!([bytes_json(b"id1")]) } else { json!([]) },
+          }
+        }
+      }
+      true
+    }
+    "concat" => {
+      let ch = node["ch"].as_array_mut().unwrap();
+      match g.rng.gen_range(0..3) {
+        0 if !ch.is_empty() => {
+          let i = g.rng.gen_range(0..ch.len());
+          ch.remove(i);
+        }
+        1 if ch.len() >= 2 => ch.swap(0, 1),
+        _ => ch.push(json!({"k": "raw", "sub": "str", "b": bytes_json(b"x")})),
+      }
+      true
+    }
+    "replace" => {
+      let repls = node["repls"].as_array_mut().unwrap();
+      if repls.is_empty() || g.rng.gen_bool(0.2) {
+        repls.push(json!({"s": 0, "e": 0, "c": bytes_json(b"x"), "n": [], "enf": 1, "api": "replace_enf"}));
+        return true;
+      }
+      let i = g.rng.gen_range(0..repls.len());
+      match g.rng.gen_range(0..6) {
+        0 => {
+          repls.remove(i);
+        }
+        1 => {
+          let s = repls[i]["s"].as_u64().unwrap() + 1;
+          let e = repls[i]["e"].as_u64().unwrap().max(s);
+          repls[i]["s"] = json!(s);
+          repls[i]["e"] = json!(e);
+        }
+        2 => repls[i]["e"] = json!(repls[i]["e"].as_u64().unwrap() + 1),
+        3 => bump_bytes(&mut repls[i]["c"], g),
+        4 => {
+          repls[i]["n"] = if repls[i]["n"].as_array().map(|a| a.is_empty()).unwrap_or(true) {
+            json!([bytes_json(b"nm")])
+          } else {
+            json!([])
+          }
+        }
+        _ => {
+          repls[i]["enf"] = json!((repls[i]["enf"].as_u64().unwrap_or(1) + 1) % 3);
+          repls[i]["api"] = json!("replace_enf");
+        }
+      }
+      true
+    }
+    _ => false,
+  }
+}
+
 /// arbitrary strings for the mappings decoder
 fn junk_steps(g: &mut Gen) -> Vec<Value> {
   let mut steps = vec![];
@@ -658,8 +817,10 @@ pub fn generate(kind: &str, seed: u64, count: usize, out: &str) {
   std::panic::set_hook(Box::new(|_| {}));
   let cfg = match kind {
     "stream_any" | "views" => Cfg::any(),
+    "identity" | "edit_pairs" => Cfg { inner_maps: true, wild_maps: false, depth: 3, ..Cfg::any() },
     "wild" => Cfg { inner_maps: true, custom: true, ..Cfg::any() },
     "replace_hist" => Cfg { depth: 1, wild_maps: false, ..Cfg::any() },
+    "cached_hist" => Cfg { cached_under_replace: false, depth: 3, ..Cfg::ascii() },
     "orig_trees" => Cfg { sms: false, cached_under_replace: false, depth: 4, max_text: 30, ..Cfg::ascii() },
     "laws" | "concat_children" | "replace_inner" | "sms_leaf" | "combined" => Cfg { depth: 2, ..Cfg::ascii() },
     _ => Cfg::ascii(),
@@ -739,6 +900,80 @@ pub fn generate(kind: &str, seed: u64, count: usize, out: &str) {
         steps.push(json!({"op": "build", "dst": 1, "tree": rhs}));
         steps.extend(obs_all(1));
         steps.push(json!({"op": "law", "law": "same", "a": 0, "b": 1}));
+      }
+      "identity" | "edit_pairs" => {
+        let t = steps[0]["tree"].clone();
+        let mut e = t.clone();
+        let edited = g.rng.gen_bool(if kind == "identity" { 0.4 } else { 1.0 }) && mutate(&mut e, &mut g);
+        // the edited tree must still build (text edits keep UTF-8, positions stay u32)
+        if std::panic::catch_unwind(|| Gen::text_of(&e)).is_err() {
+          continue;
+        }
+        let pair = |r: u64| vec![obs("source", r), obs("buffer", r), map(r, true), map(r, false),
+                                 json!({"op": "hash", "r": r, "h": "twox"})];
+        let eq = |a: u64, b: u64| json!({"op": "eq", "a": a, "b": b});
+        let mut v = vec![json!({"op": "build", "dst": 0, "tree": t}), json!({"op": "build", "dst": 1, "tree": e}),
+                         eq(0, 1), eq(1, 0)];
+        // observers on one operand before comparing again
+        for _ in 0..g.rng.gen_range(0..3) {
+          v.push(match g.rng.gen_range(0..7) {
+            0 => obs("source", 0),
+            1 => map(0, g.rng.gen_bool(0.5)),
+            2 => stream(0, g.rng.gen_bool(0.5), false),
+            3 => json!({"op": "hash", "r": 0, "h": "twox"}),
+            4 => obs("size", 0),
+            5 => obs("rope", 0),
+            _ => obs("buffer", 0),
+          });
+          v.push(eq(0, 1));
+        }
+        v.extend(pair(0));
+        v.extend(pair(1));
+        v.push(eq(0, 1));
+        v.push(eq(1, 0));
+        if edited {
+          v.push(json!({"op": "law", "law": "edit_pair", "a": 0, "b": 1}));
+        }
+        v.push(json!({"op": "clone", "dst": 2, "src": 0}));
+        v.push(eq(0, 2));
+        v.push(json!({"op": "hash", "r": 2, "h": "twox"}));
+        v.push(obs("source", 2));
+        v.push(map(2, true));
+        v.push(eq(2, 0));
+        v.push(json!({"op": "hash_tree", "tree": steps[0]["tree"].clone()}));
+        steps = v;
+      }
+      "cached_hist" => {
+        let x = steps[0]["tree"].clone();
+        let pre = g.text(4);
+        let mut v = vec![
+          json!({"op": "build", "dst": 1, "tree": x}),
+          obs("source", 1), stream(1, true, false), stream(1, false, false), map(1, true), map(1, false),
+          json!({"op": "build", "dst": 4, "tree": {"k": "concat", "mode": "boxed",
+                 "ch": [{"k": "raw", "sub": "str", "b": bytes_json(pre.as_bytes())}, x]}}),
+          obs("source", 4), map(4, true), map(4, false),
+          json!({"op": "build", "dst": 0, "tree": {"k": "cached", "cid": 77, "inner": x}}),
+          json!({"op": "clone", "dst": 2, "src": 0}),
+          json!({"op": "build", "dst": 3, "tree": {"k": "concat", "mode": "boxed",
+                 "ch": [{"k": "raw", "sub": "str", "b": bytes_json(pre.as_bytes())}, {"k": "reg", "r": 0}]}}),
+          json!({"op": "law", "law": "ref", "cached": [0, 2], "pure": 1}),
+          json!({"op": "law", "law": "ref", "cached": [3], "pure": 4}),
+        ];
+        let n = g.rng.gen_range(1..=10);
+        for _ in 0..n {
+          let r = g.pick(&[0u64, 0, 2]);
+          v.push(match g.rng.gen_range(0..10) {
+            0 => obs("source", r),
+            1 => obs("buffer", r),
+            2 => obs("size", r),
+            3 => json!({"op": "hash", "r": r, "h": "twox"}),
+            4..=5 => map(r, g.rng.gen_bool(0.5)),
+            6..=7 => stream(r, g.rng.gen_bool(0.5), false),
+            8 => map(3, g.rng.gen_bool(0.5)),
+            _ => stream(3, g.rng.gen_bool(0.5), false),
+          });
+        }
+        steps = v;
       }
       "combined" => {
         // SourceMapSource with an inner source map
